@@ -396,7 +396,151 @@ func cancelRace() {
 	vrt.Observe("how=%d cb=%v", how, fromCallback)
 }
 
+// manyAtLoss: more handlers than the endpoint's ten preallocated slots are
+// registered when the connection is lost (twelve pending calls, a
+// subscription, a disconnect callback): every call returns an error, the
+// subscription is closed, the callback fires once.
+func manyAtLoss() {
+	cc, pc := vnet.NewPair("client", "peer")
+	// a peer that reads the calls and never answers
+	vrt.GoNamed("peer", func() {
+		for {
+			var m net.Message
+			if m.Read(pc) != nil {
+				return
+			}
+		}
+	})
+	ep := net.ConnEndPoint(cc)
+	cl := bus.NewClient(bus.NewChannel(ep, bus.DefaultCap()))
+	disc := 0
+	cl.OnDisconnect(func(err error) { disc++ })
+	_, ch, err := cl.Subscribe(3, 1, 77)
+	if err != nil {
+		vrt.Failf("subscribe-error", "%v", err)
+		return
+	}
+	subClosed := false
+	vrt.GoNamed("subscriber", func() {
+		for range ch {
+		}
+		subClosed = true
+	})
+	const n = 12
+	returned := make([]bool, n)
+	var workers []*vrt.Thread
+	for i := 0; i < n; i++ {
+		i := i
+		workers = append(workers, vrt.GoWorker(fmt.Sprintf("caller%d", i), func() {
+			_, err := cl.Call(nil, 3, 1, uint32(100+i), []byte{byte(i)})
+			returned[i] = true
+			if err == nil {
+				vrt.Failf("reply-from-nowhere", "call %d succeeded although the peer never answers", i)
+			}
+		}))
+	}
+	vrt.Quiesce()
+	how := vrt.ChooseFree(2, "lost by: peer close / local Close")
+	vrt.Explore()
+	closer := vrt.GoWorker("closer", func() {
+		if how == 0 {
+			pc.Close()
+		} else {
+			ep.Close()
+		}
+	})
+	vrt.Quiesce()
+	if !closer.Done() {
+		vrt.Failf("hang/closer", "closing never returned: blocked on %s", closer.BlockedOn())
+	}
+	pending := 0
+	for i := range workers {
+		if !returned[i] {
+			pending++
+		}
+	}
+	if pending > 0 {
+		vrt.Failf("hang/pending-calls", "%d of %d simultaneous calls (handler slots beyond the tenth among them) are still pending after the connection was lost", pending, n)
+	}
+	if !subClosed {
+		vrt.Failf("subscription-not-closed", "subscription channel still open after the connection was lost with %d handlers registered", n+2)
+	}
+	if disc != 1 {
+		vrt.Failf(fmt.Sprintf("disconnect-callback-count/%d", disc), "the disconnect callback ran %d times", disc)
+	}
+	vrt.Observe("how=%d pending=%d", how, pending)
+}
+
+// flooded: a subscriber that does not read while the peer sends more events
+// than its queue holds; then the connection is lost: closing returns, pending
+// calls fail, and once the subscriber reads again its channel ends.
+func flooded() {
+	cc, pc := vnet.NewPair("client", "peer")
+	ep := net.ConnEndPoint(cc)
+	cl := bus.NewClient(bus.NewChannel(ep, bus.DefaultCap()))
+	disc := 0
+	cl.OnDisconnect(func(err error) { disc++ })
+	_, ch, err := cl.Subscribe(3, 1, 77)
+	if err != nil {
+		vrt.Failf("subscribe-error", "%v", err)
+		return
+	}
+	const flood = 105
+	for i := 0; i < flood; i++ {
+		ev := net.NewMessage(net.NewHeader(net.Event, 3, 1, 77, 0), []byte{byte(i)})
+		if ev.Write(pc) != nil {
+			vrt.Failf("harness/flood", "event %d could not be written", i)
+			return
+		}
+	}
+	vrt.Quiesce() // nobody reads the subscription: its queue is full
+	how := vrt.ChooseFree(2, "lost by: peer close / local Close")
+	vrt.Explore()
+	callReturned := false
+	caller := vrt.GoWorker("caller", func() {
+		cl.Call(nil, 3, 1, 100, []byte{1})
+		callReturned = true
+	})
+	closer := vrt.GoWorker("closer", func() {
+		if how == 0 {
+			pc.Close()
+		} else {
+			ep.Close()
+		}
+	})
+	vrt.Quiesce()
+	if !closer.Done() {
+		vrt.Failf("hang/closer", "closing the connection never returned while a subscriber's queue was full: blocked on %s", closer.BlockedOn())
+	}
+	if !callReturned {
+		vrt.Failf("hang/caller", "a call in flight is still pending after the connection was lost (a subscriber's queue was full): blocked on %s", caller.BlockedOn())
+	}
+	// the subscriber starts reading now
+	got, closed := 0, false
+	drain := vrt.GoNamed("subscriber", func() {
+		for range ch {
+			got++
+		}
+		closed = true
+	})
+	vrt.Quiesce()
+	if !closed {
+		vrt.Failf("subscription-not-closed", "the subscription channel did not end after the connection was lost (it delivered %d events); subscriber blocked on %s", got, drain.BlockedOn())
+	}
+	if disc != 1 {
+		vrt.Failf(fmt.Sprintf("disconnect-callback-count/%d", disc), "the disconnect callback ran %d times", disc)
+	}
+	for _, lw := range vrt.LockWaiters() {
+		vrt.Failf("deadlock/"+lw.Kind, "thread %s blocked on %s", lw.Thread, lw.Label)
+	}
+	vrt.Observe("how=%d got=%d", how, got)
+}
+
 func init() {
+	reg.Register(&reg.Scenario{Property: "C11", Name: "fourteen-handlers-at-loss", Body: manyAtLoss, Quick: 0, Thorough: 1,
+		Doc: "twelve pending calls, a subscription and a disconnect callback (more than the ten preallocated handler slots) when the peer closes or the client closes"})
+	reg.Register(&reg.Scenario{Property: "C11", Name: "flooded-subscription-at-loss", Body: flooded, Quick: 0, Thorough: 1,
+		Doc: "105 events for a subscription nobody reads (its 100-message queue is full), a call in flight, then the connection is lost: closing returns, the call fails, the channel ends once read"})
 	reg.Register(&reg.Scenario{Property: "C11", Name: "stalled-write-then-close", Body: stalled, Quick: 1, Thorough: 3,
 		Doc: "the peer stopped reading: with a finite send buffer the second of two calls is stuck in its write when the connection is closed locally or by the peer: both calls return errors, later calls fail, the callback fires once", MustFlag: []string{"write-stalled"}})
 	reg.Register(&reg.Scenario{Property: "C11", Name: "cancel-during-connection-loss", Body: cancelRace, Quick: 2, Thorough: 3,
